@@ -1,5 +1,11 @@
 mod storage;
 
+/// Verification hooks: re-exports of otherwise private items
+#[cfg(feature = "verif")]
+pub mod verif_api {
+    pub use super::storage::*;
+}
+
 use std::cell::RefCell;
 use std::rc::Rc;
 use std::time::Duration;
@@ -51,6 +57,9 @@ pub async fn run_swarm_worker(
     // Periodically clean torrents
     TimerActionRepeat::repeat(enclose!((config, torrents, access_list) move || {
         enclose!((config, torrents, access_list) move || async move {
+            #[cfg(feature = "verif")]
+            aquatic_common::verif::probe("ws:swarm:clean", worker_index as u64);
+
             torrents.borrow_mut().clean(&config, &access_list, server_start_instant);
 
             Some(Duration::from_secs(config.cleaning.torrent_cleaning_interval))
@@ -101,6 +110,13 @@ where
     S: futures_lite::Stream<Item = SwarmControlMessage> + ::std::marker::Unpin,
 {
     while let Some(message) = stream.next().await {
+        #[cfg(feature = "verif")]
+        if let aquatic_common::verif::ProbeAction::Return =
+            aquatic_common::verif::probe("ws:swarm:control", 0)
+        {
+            return;
+        }
+
         match message {
             SwarmControlMessage::ConnectionClosed {
                 ip_version,
@@ -135,6 +151,9 @@ async fn handle_request_stream<S>(
         .for_each_concurrent(
             SHARED_IN_CHANNEL_SIZE,
             move |(meta, in_message)| async move {
+                #[cfg(feature = "verif")]
+                aquatic_common::verif::probe("ws:swarm:request", 0);
+
                 let mut out_messages = Vec::new();
 
                 match in_message {
